@@ -249,11 +249,22 @@ def spec(name: str, opts: dict):
 SCALAR_VARIANTS = ["dyadic:float", "generic:float", "generic:float64", "generic:float32", "generic:real_t"]
 
 
+def positional_order(name: str, opts: dict, sp: dict):
+    """Documented positional parameter order of the public wrapper closures (outputs first, then inputs, then
+    scalars - except the Brinkmann vector wrappers, whose documented order is listed explicitly)."""
+    vec = opts.get("field_type") == "vector"
+    if "brinkmann_penalise_vs_fixed_val" in name and vec:
+        return ["penalised_vector_field", "penalty_factor", "char_field", "penalty_val", "vector_field"]
+    if "brinkmann_penalise" in name and vec:
+        return ["penalised_vector_field", "penalty_factor", "char_field", "penalty_vector_field", "vector_field"]
+    return [a for a, _k, _r in sp["arrays"]] + list(sp["scalars"])
+
+
 def scalar_variant(scalars: dict, variant: str, real_t):
     """Scalar-argument alphabet: the VALUE (dyadic as listed above, or 'generic' = not representable in
     single precision) and the TYPE of the object the caller passes (Python float, numpy double, numpy
     single, the kernel's own precision).  Returns (arguments to pass, their exact float64 meaning)."""
-    value, typ = variant.split(":")
+    value, typ = variant.split(":")[:2]
     conv = {"float": float, "float64": np.float64, "float32": np.float32, "real_t": real_t}[typ]
     factors = (1.1, 0.9, 1.3)
 
